@@ -790,3 +790,18 @@ V('c18-send-empty-query', 'C18', 'C18.BOUND', INF,
 # twins
 V('c18-twin-deadline-flipped', 'C18', 'C18.BOUND', INF,
   "                if last <= now:\n                    return False\n", "                if now >= last:\n                    return False\n", expect='silent')
+
+V('c01-cstr-off-by-one', 'C01', 'C01.PRIMS', INCF,
+  "        info = self.data[self.offset : self.offset + length].decode('utf-8', 'replace')\n        self.offset += length\n        return info",
+  "        info = self.data[self.offset : self.offset + length].decode('utf-8', 'replace')\n        self.offset += length + 1\n        return info")
+V('c01-cstr-length-not-skipped', 'C01', 'C01.PRIMS', INCF,
+  "        length = self.view[self.offset]\n        self.offset += 1\n        info = self.data[self.offset : self.offset + length].decode('utf-8', 'replace')",
+  "        length = self.view[self.offset]\n        info = self.data[self.offset : self.offset + length].decode('utf-8', 'replace')\n        self.offset += 1")
+V('c01-raw-read-short', 'C01', 'C01.PRIMS', INCF,
+  "        info = self.data[self.offset : self.offset + length]\n        self.offset += length\n        return info", "        info = self.data[self.offset : self.offset + length - 1]\n        self.offset += length\n        return info")
+V('c01-additionals-not-read', 'C01', 'C01.PRIMS', INCF,
+  "        n = self._num_answers + self._num_authorities + self._num_additionals", "        n = self._num_answers + self._num_authorities")
+V('c01-cstr-writer-order', 'C01', 'C01.PRIMS', OUTF,
+  "        if length > 256:\n            raise NamePartTooLongException\n        self._write_byte(length)\n        self.write_string(value)", "        if length > 256:\n            raise NamePartTooLongException\n        self.write_string(value)\n        self._write_byte(length)")
+V('c01-twin-prims-locals', 'C01', 'C01.PRIMS', INCF,
+  "        info = self.data[self.offset : self.offset + length]\n        self.offset += length\n        return info", "        start = self.offset\n        self.offset = start + length\n        return self.data[start : start + length]", expect='silent')
